@@ -342,4 +342,63 @@ def resolve (cwd : RPath) (p : Str) : RPath := resolveC cwd (components p)
 /-- `d` is a proper prefix of `p` : `p` lies strictly inside directory `d` -/
 def Under (d p : RPath) : Prop := ∃ l, l ≠ [] ∧ p = d ++ l
 
+
+/-! ### histories: many writers of one builder on one filesystem, calls in ANY order
+
+  The writer's own state is `inner.destination : Option PathBuf` (`inner.writer` is `Some` exactly when it is):
+  set by a successful `open` (lines 155-158), cleared by `complete` (189-190) and by `error` / `interrupted`
+  (194-199).  `write` goes to the file descriptor obtained by `open`; it has no effect on any PATH. -/
+
+structure Writer where
+  loc : Str                         -- `meta.content_location`
+  ans : UrlAns                      -- what `Url::parse(loc)` answers
+  destination : Option Str          -- `inner.destination`
+
+inductive Call where
+  | «open» | write | complete | error | interrupted
+  deriving DecidableEq, Repr
+
+/-- one call on one writer, in the filesystem as it is at that moment:
+    new filesystem, new writer state, path effects, and whether the call returned `Ok` -/
+def callWriter (fs : FS) (cwd : RPath) (dest : Str) (w : Writer) : Call → FS × Writer × List Effect × Bool
+  | .open =>
+    let o := PathMap.open fs cwd dest w.loc w.ans
+    match o.opened with
+    | none => (o.fs, w, openEffects o, false)                        -- `?` returns before `inner` is touched
+    | some (dst, _, _) => (o.fs, { w with destination := some dst }, openEffects o, true)
+  | .write => (fs, w, [], true)
+  | .complete => (fs, { w with destination := none }, [], true)
+  | .error | .interrupted =>
+    match w.destination with
+    | none => (fs, w, [], true)
+    | some dst =>
+      match unlink fs cwd dst with
+      | .ok (fs', g) => (fs', { w with destination := none }, [.remove g], true)
+      | .error _ => (fs, { w with destination := none }, [], true)    -- `.ok()` : ignored
+
+/-- operations of a history: `new_object_writer(meta)` of the builder, or a call on the i-th writer made so far -/
+inductive HOp where
+  | new (loc : Str) (ans : UrlAns)
+  | call (i : Nat) (c : Call)
+
+structure Sys where
+  fs : FS
+  writers : List Writer
+
+def hstep (cwd : RPath) (dest : Str) (s : Sys) : HOp → Sys × List Effect
+  | .new loc ans => ({ s with writers := s.writers ++ [⟨loc, ans, none⟩] }, [])
+  | .call i c =>
+    match s.writers[i]? with
+    | none => (s, [])
+    | some w =>
+      let r := callWriter s.fs cwd dest w c
+      (⟨r.1, s.writers.set i r.2.1⟩, r.2.2.1)
+
+def hrun (cwd : RPath) (dest : Str) : Sys → List HOp → Sys × List Effect
+  | s, [] => (s, [])
+  | s, op :: rest =>
+    let r := hstep cwd dest s op
+    let r' := hrun cwd dest r.1 rest
+    (r'.1, r.2 ++ r'.2)
+
 end Flute.PathMap
